@@ -1,0 +1,26 @@
+//go:build verif
+
+package blake2b
+
+// Verification hooks (build tag "verif" only): re-exports of the unexported
+// hashing primitives so that every CPU path can be driven directly.
+
+// VerifHashBlockGeneric calls hashBlockGeneric.
+func VerifHashBlockGeneric(msg *[64]byte, prefix uint64) [32]byte {
+	return hashBlockGeneric(msg, prefix)
+}
+
+// VerifHashBlocksGeneric calls hashBlocksGeneric.
+func VerifHashBlocksGeneric(outs *[4][32]byte, msgs *[4][64]byte, prefix uint64) {
+	hashBlocksGeneric(outs, msgs, prefix)
+}
+
+// VerifHashBlock calls the dispatching hashBlock.
+func VerifHashBlock(msg *[64]byte, prefix uint64) [32]byte {
+	return hashBlock(msg, prefix)
+}
+
+// VerifHashBlocks calls the dispatching hashBlocks.
+func VerifHashBlocks(outs *[4][32]byte, msgs *[4][64]byte, prefix uint64) {
+	hashBlocks(outs, msgs, prefix)
+}
